@@ -11,6 +11,7 @@ import (
 	"golang.org/x/tools/go/ssa"
 
 	"tinkverif/consteval"
+	"tinkverif/bounds"
 	"tinkverif/core"
 	"tinkverif/guard"
 )
@@ -113,6 +114,36 @@ func c06IDs(c *Ctx) {
 			if guard.Strip(chain[i].(*ssa.Call).Call.Args[1]) != chain[i-1] {
 				good = false
 			}
+		}
+		if !good {
+			// fixed-offset form: PutUint16(res[4:], kem), PutUint16(res[6:], kdf), PutUint16(res[8:], aead)
+			// into a 10-byte buffer whose head is the label
+			cx := bounds.NewCtx(f)
+			at := map[int]string{}
+			allInstrs(f, func(ins ssa.Instruction) {
+				call, ok := ins.(*ssa.Call)
+				if !ok || !strings.HasSuffix(guard.CalleeName(&call.Call), "bigEndian).PutUint16") {
+					return
+				}
+				sl, isSl := guard.Strip(call.Call.Args[1]).(*ssa.Slice)
+				if !isSl {
+					return
+				}
+				if cx.LenOf(sl.X).String() != "10" {
+					return
+				}
+				off := "0"
+				if sl.Low != nil {
+					off = cx.Lin(sl.Low).String()
+				}
+				arg := guard.Strip(call.Call.Args[len(call.Call.Args)-1])
+				for i, prm := range f.Params {
+					if arg == ssa.Value(prm) {
+						at[i] = off
+					}
+				}
+			})
+			good = len(at) == 3 && at[0] == "4" && at[1] == "6" && at[2] == "8"
 		}
 		hasLabel := false
 		allInstrs(f, func(ins ssa.Instruction) {
